@@ -548,6 +548,10 @@ def batches(rng, tier):
     yield Batch("rel-random", ops, note="random values with components in [-3,3], trees up to 7 nodes, grids up to 3x3, "
                 "raw_vectors up to 6 elements; half of the pairs differ in at most one place")
     # ---- wrappers expose the wrapped object
+    yield Batch("partial-order-and-padding", [f"fpchk {k}" for k in ("std", "stf", "rvd", "rvp", "cont")], exhaustive=True,
+                note="strong_typedef<double/float>: all six comparisons and + - * neg on all pairs of {NaN, -inf, -1.5, -0.0, 0.0, 1.0, inf} against the built-in "
+                     "operators; raw_vector<double> (NaN, -0.0, 0.0) and raw_vector of a padded struct with differing padding bytes: == != < > <= >= against "
+                     "the element-wise reference; == / != of optional, array, tuple, vector, either, variant holding doubles")
     r = rng.fork("wrap")
     ops = [f"wrap {x}" for x in [0, 1, -1, 2 ** 31 - 1, -2 ** 31]] + [f"wrap {r.range(-2 ** 31, 2 ** 31 - 1)}" for _ in range(200)]
     yield Batch("wrap", ops, note="reference / recursive / unique_ptr / shared_ptr / type_iso show the wrapped object")
